@@ -112,6 +112,9 @@ func message(id int, n int) []byte {
 type rec struct{ id, n int }
 
 func identify(got []byte, sent []rec) int {
+	if len(got) == 0 {
+		return 0 // the empty message: content id 0 in the model
+	}
 	for _, s := range sent {
 		if len(got) == s.n {
 			want := make([]byte, s.n)
@@ -136,11 +139,19 @@ var points = []string{"AfterCopyTorn", "AfterCopy", "AfterIndexPart", "AfterInde
 func (o opJ) coq() string {
 	switch o.K {
 	case "put":
-		return fmt.Sprintf("Put %d %d%%N", o.ID, o.Len)
+		return fmt.Sprintf("Put %d %d%%N", cid(o), o.Len)
 	case "crash":
-		return fmt.Sprintf("PutCrash %d %d%%N %s", o.ID, o.Len, o.Point)
+		return fmt.Sprintf("PutCrash %d %d%%N %s", cid(o), o.Len, o.Point)
 	}
 	return "Reopen"
+}
+
+// content id of an operation's message: all empty messages are the same message
+func cid(o opJ) int {
+	if o.Len == 0 {
+		return 0
+	}
+	return o.ID
 }
 
 func doPut(q queue.Queue, id, n int, crashAt int, torn bool) (crashed bool, err error) {
@@ -237,6 +248,8 @@ func main() {
 				n = r.Range(1000, 300000)
 			case r.Chance(10):
 				n = 1
+			case r.Chance(8):
+				n = 0 // the empty message is a message like any other
 			}
 			if big {
 				rem := pageSize - used
